@@ -54,7 +54,7 @@ def fl(q) -> float:
 
 
 def build_model(content):
-    """content (wire form without surrogates) -> real Model whose functions pickle"""
+    """content (wire form) -> real Model whose functions pickle"""
     from mxlpy import Model
     from mxlpy.types import Derived, InitialAssignment
 
@@ -77,6 +77,16 @@ def build_model(content):
         m.add_derived(k, fn=pfn(v), args=list(v["args"]))
     for k, v in content.get("rxns", []):
         m.add_reaction(k, fn=pfn(v), args=list(v["args"]), stoichiometry={c: coef(cj) for c, cj in v["st"]})
+    for k, v in content.get("surs", []):
+        from mxlpy.surrogates import qss
+
+        _count[0] += 1
+        name = f"s{os.getpid()}_{_count[0]}"
+        fn = reg_fn(fexpr.compile_multi(v["es"], len(v["args"]), name=name), name)
+        m.add_surrogate(k, qss.Surrogate(model=fn, args=list(v["args"]), outputs=list(v["outs"]),
+                                         stoichiometries={f: {c: coef(cj) for c, cj in st} for f, st in v["st"]}))
+    for k, v in content.get("readouts", []):
+        m.add_readout(k, fn=pfn(v), args=list(v["args"]))
     return m
 
 
